@@ -49,7 +49,7 @@ def run_export(lane, spec, ex, out, probes=None, argv_extra=None, keylog="__ex__
     """one run of the real TLExport on the expanded world"""
     kl = ex["keylog"] if keylog == "__ex__" else keylog
     argv = list(ex["argv"]) + list(argv_extra or [])
-    cover = (spec.get("seed", 1) % 40 == 0) and not getattr(out, "_covered", False)
+    cover = (spec.get("idx", 1) % 25 == 0) and not getattr(out, "_covered", False)
     if cover:
         probes = list(probes or []) + ["cover"]
         out._covered = True
